@@ -14,11 +14,12 @@ fn show_ks<K: Raw>(v: &[K]) -> String {
 fn on_vmer<K: Raw, V: Vmer>(v: &V, req: &str, rest: &[&str]) -> String {
     match req {
         "getkmer" => show_k(&v.get_kmer::<K>(rest[0].parse().unwrap())),
-        "iter" => show_ks(&v.iter_kmers::<K>().collect::<Vec<K>>()),
+        "iter" => format!("{} it={}", show_ks(&v.iter_kmers::<K>().collect::<Vec<K>>()), adaptors(|| v.iter_kmers::<K>(), |k| show_k(k))),
         "iterexts" => {
             let e = Exts::new(u8::from_str_radix(rest[0], 16).unwrap());
             let items: Vec<String> = v.iter_kmer_exts::<K>(e).map(|(k, x)| format!("{}:{:02x}", show_k(&k), x.val)).collect();
-            if items.is_empty() { "-".into() } else { items.join(",") }
+            format!("{} it={}", if items.is_empty() { "-".to_string() } else { items.join(",") },
+                adaptors(|| v.iter_kmer_exts::<K>(e), |(k, x)| format!("{}:{:02x}", show_k(k), x.val)))
         }
         "term" => {
             let (f, l) = v.both_term_kmer::<K>();
